@@ -398,3 +398,25 @@ def run_unseen(item):
     if bad:
         fails.append("cells differ from the definition on the fitted vocabulary")
     return {"ok": not fails, "fails": fails, "bad": bad[:4]}
+
+
+def run_thresh(item):
+    """C11: n_iter = 0 with epsilon > 0 against the integer-only Thresh of Cooc.tla; item has thresh (one cell list per epsilon) and eps"""
+    fam = item.get("family", "token")
+    C = _cls(fam)
+    c, V = item["cfg"], item["V"]
+    fails = []
+    for (en, ed), cells in zip(item["eps"], item["thresh"]):
+        kw = kwargs_for(c, V, False, item.get("explicit", False))
+        if fam == "timed":
+            for ka in kw["kernel_args"]:
+                ka["delta"] = 1.0
+        kw.update(epsilon=en / ed, n_iter=0)
+        kw.update(item.get("extra") or {})
+        m = C(**kw)
+        M = m.fit_transform(build_X(item))
+        exp = {(TOKS[e["r"]], e["b"] + "_" + TOKS[e["c"]]): e["n"] / e["d"] for e in cells}
+        bad = compare(exp, observed_cells(m, M))
+        if bad:
+            fails.append({"eps": [en, ed], "bad": bad})
+    return {"ok": not fails, "fails": fails[:3]}
